@@ -445,6 +445,11 @@ func (e *Eng) actPARUse() {
 		}
 		ng := e.newGrant(g.Client, "code", g.Scopes, nil, subject)
 		ng.Redirect = redirectURI
+		if g.Extra["redirect-not-pushed"] == "1" {
+			// no redirect_uri was pushed (single registered URI): like a plain request without the parameter, the
+			// code is bound to none
+			ng.Redirect = ""
+		}
 		ng.Extra["verifier"] = g.Extra["verifier"]
 		ng.Extra["par"] = "1"
 		if conflict && g.Extra["redirect-not-pushed"] == "1" {
